@@ -101,6 +101,10 @@ type TAOpts struct {
 	// the queue at every pass, and a job with fault kind "lost" vanishes without leaving any file
 	// (killed in the scheduler's queue / node lost) — only the queue query can notice.
 	Cluster bool
+	// AgeHeartbeats: whenever no job is in flight, 61 simulated minutes pass before mrp checks heartbeats
+	// (fault kind "hang": a job that started, sent a heartbeat and then died without a trace in LOCAL
+	// mode is only ever noticed by the heartbeat timeout)
+	AgeHeartbeats bool
 }
 
 type TARun struct {
@@ -463,6 +467,11 @@ func (r *TARun) finishJob(job *TAJob) {
 	case "lost":
 		// the job vanishes: no _errors, no journal entry, its process (if any) is gone
 		job.Outcome = "fail:lost"
+	case "hang":
+		// the job sent one heartbeat, then died without a trace
+		md.WriteTime(core.Heartbeat)
+		md.UpdateJournal(core.Heartbeat)
+		job.Outcome = "fail:hang"
 	case "errors":
 		md.WriteRaw(core.Errors, "injected failure in "+job.Key)
 		md.UpdateJournal(core.Errors)
@@ -504,7 +513,7 @@ func (r *TARun) finishJob(job *TAJob) {
 	ev.Outs = job.Outs
 	if t := r.Tracer; t != nil {
 		switch {
-		case job.Outcome == "fail:lost":
+		case job.Outcome == "fail:lost" || job.Outcome == "fail:hang":
 			t.emit("killed %s", t.jobRef(job))
 		case job.Outcome == "fail:exit":
 			t.emit("silentfail %s", t.jobRef(job))
@@ -835,6 +844,9 @@ func (r *TARun) stepOnce() (done bool, progress bool) {
 	}
 	if r.Opts.Cluster {
 		r.ps.VerifAllowQueueCheck()
+	}
+	if r.Opts.AgeHeartbeats && len(r.Pending) == 0 {
+		r.ps.VerifAgeHeartbeats(61 * time.Minute)
 	}
 	r.ps.CheckHeartbeats(ctx)
 	if r.Opts.Cluster {
